@@ -103,6 +103,7 @@ type pipeCase struct {
 	Root  string            `json:"root"`
 	Shape string            `json:"shape"`
 	Refs  int               `json:"refs"`
+	Twins bool              `json:"twins"`
 }
 
 // ---------------------------------------------------------------- catalogue
@@ -608,6 +609,27 @@ func pipeGenCase(rng *Rng, rules []krusty.VerifC03Rule) *pipeCase {
 		}
 	}
 	pc.Refs = g.refs
+	// twins: a second resource with the kind/name(/namespace) of an existing one, in the same or another layer
+	// (id collisions at AppendAll / MergeAccumulator, namespace id conflicts, rival referral candidates)
+	if rng.Chance(18) {
+		var real []*pipeObj
+		for _, o := range g.objs {
+			if !o.Gen {
+				real = append(real, o)
+			}
+		}
+		if len(real) > 0 {
+			o := real[rng.Intn(len(real))]
+			ns := o.Ns
+			if g.useNs && rng.Chance(40) {
+				ki, _ := pipeKindInfo(o.Kind)
+				ns = g.pickNs(ki)
+			}
+			d := g.dirs[rng.Intn(len(g.dirs))]
+			g.newObj(o.Kind, o.AV, o.Name, ns, d)
+			pc.Twins = true
+		}
+	}
 	// directives
 	for _, d := range g.dirs {
 		if rng.Chance(35) {
@@ -1133,6 +1155,7 @@ func pipeOne(r *Run, pc *pipeCase, debug bool, corpus bool) {
 	r.Count("sort", pc.Sort)
 	r.Count("outcome", o.Cls)
 	r.Count("refs", fmt.Sprint(pc.Refs))
+	r.Count("twins", fmt.Sprint(pc.Twins))
 	if o.Cls == ClsErr {
 		r.Count("error", pipeErrKind(o.Msg))
 	}
@@ -1165,8 +1188,13 @@ func pipeErrKind(msg string) string {
 		return "generator-repeated-key"
 	case strings.Contains(msg, "conflicting fieldspecs"):
 		return "label-fieldspec-conflict"
+	case strings.Contains(msg, "kustomization.yaml is empty"):
+		return "empty-kustomization"
 	case strings.Contains(msg, "merging from generator"):
 		return "generator-absorb"
+	}
+	if os.Getenv("PIPE_DEBUG") != "" {
+		fmt.Fprintln(os.Stderr, "OTHER ERROR:", msg)
 	}
 	return "other"
 }
